@@ -52,6 +52,21 @@ class Scripted(System):
                 getattr(w.world, "op_" + act[1])(*act[2:])
 
 
+from ECAgent.Collectors import Collector  # noqa: E402
+
+
+class ScriptedCollector(Collector):
+    """The same scripted system, built on ECAgent.Collectors.Collector (collectors are systems: same window, same order)."""
+
+    def __init__(self, world, obj, prio, start, end, freq, script):
+        Collector.__init__(self, obj[0], world.model, priority=prio, frequency=freq, start=start, end=_end_to_py(end))
+        self.world = world
+        self.obj = obj
+        self.script = script
+
+    collect = Scripted.execute
+
+
 class SchedWorld:
     def __init__(self, ids, seed=None, logger=None, model=None, events=None, world=None):
         self.world = world          # a harness.drivers.world.Driver whose operations scripts may call (composition)
@@ -94,7 +109,7 @@ class SchedWorld:
         if inst is None or self.model.systems[obj[0]] is not inst:
             # a system object that is not registered: (re)configure it
             if inst is None:
-                inst = Scripted(self, obj, prio, start, end, freq, script)
+                inst = (ScriptedCollector if obj[1] % 4 == 2 else Scripted)(self, obj, prio, start, end, freq, script)
                 self.objects[obj] = inst
                 if obj[0] not in self.ids:
                     self.ids.append(obj[0])
